@@ -131,7 +131,7 @@ Proof.
   assert (S : ss_sum (map al_owed (st_allocs s) ++ [al_owed {| al_id := id; al_owner := owner; al_start := now; al_exp := now + ss_tu_sec c; al_size := size;
               al_data := data; al_parity := parity; al_wpool := value; al_mtc := 0; al_mb := 0; al_mtv := 0;
               al_tpe := tpe; al_ent := false; al_used := 0; al_tot := 0; al_open := 0; al_succ := 0; al_fail := 0;
-              al_rr := rr; al_wr := wr; al_cp := Some 0; al_bas := bas; al_ocs := []; al_chnode := false |}]) = ss_sum (map al_owed (st_allocs s)) + value).
+              al_rr := rr; al_wr := wr; al_cp := Some 0; al_bas := bas; al_ocs := []; al_chnode := false; al_tu := cf_tu_ns c |}]) = ss_sum (map al_owed (st_allocs s)) + value).
   { generalize (map al_owed (st_allocs s)). induction l; cbn; [unfold al_owed; cbn; lia | cbn in IHl; lia]. }
   rewrite S. unfold ss_bal in *. cbn [st_bals st_with_allocs st_with_blobbers]. lia.
 Qed.
